@@ -102,9 +102,9 @@ def r3_query(ctx):
     ctx.expect_count('R3', 'returning paths of get_spine_types', n_ret, 2)
     pub = ctx.prog.func(f'{N.PUBLIC}.spine_types')
     rets = symex.returns(pub)
-    ok = len(rets) == 1 and src(rets[0][1]) == f'generic.Generic.get_spine_types(document={pub.params[0]}, spine_types={pub.params[1]})'
+    ok = len(rets) == 1 and F.same(ctx, pub, rets[0][1], f'generic.Generic.get_spine_types(document={pub.params[0]}, spine_types={pub.params[1]})')
     ctx.check(ok, 'R3', pub.loc, pub.qualname, 'public-query-forwards', 'kernpy.spine_types forwards (document, headers) to the exporter query')
     gg = ctx.prog.func(f'{N.GENERIC}.Generic.get_spine_types')
     rets = symex.returns(gg)
-    ok = len(rets) == 1 and src(rets[0][1]) == f'Exporter().get_spine_types({gg.params[1]}, {gg.params[2]})'
+    ok = len(rets) == 1 and F.same(ctx, gg, rets[0][1], f'Exporter().get_spine_types({gg.params[1]}, {gg.params[2]})')
     ctx.check(ok, 'R3', gg.loc, gg.qualname, 'generic-query-forwards', 'Generic.get_spine_types uses a fresh Exporter with unswapped arguments')
